@@ -152,16 +152,16 @@ Qed.
 Lemma lrefcount_nonneg i n : 0 <= lrefcount i n.
 Proof. apply ltotal_nonneg, lw_ref_nonneg. Qed.
 
-Lemma is_ref_spec i n : is_ref i n = true <-> exists nm st, n = LFile nm (Some i) st.
+Lemma is_ref_spec i n : is_ref i n = true <-> exists nm st, n = LFile nm i st.
 Proof.
   split.
-  - destruct n as [nm [j|] st|nm dl kids]; cbn [is_ref]; try discriminate.
+  - destruct n as [nm j st|nm dl kids]; cbn [is_ref]; try discriminate.
     intros H. apply Nat.eqb_eq in H. subst j. exists nm, st. reflexivity.
   - intros (nm & st & ->). cbn [is_ref]. apply Nat.eqb_refl.
 Qed.
 
 (* a record found by path contributes to the count of its inode *)
-Lemma lsubtree_ref i : forall p n nm st, lsubtree p n = Some (LFile nm (Some i) st) ->
+Lemma lsubtree_ref i : forall p n nm st, lsubtree p n = Some (LFile nm i st) ->
   0 < lrefcount i n.
 Proof.
   unfold lrefcount. induction p as [|x q IH]; intros n nm st H; cbn [lsubtree] in H.
@@ -391,7 +391,7 @@ Lemma file_list_in t i : forall recs,
 Proof.
   induction recs as [|n r IH]; cbn [file_list].
   - cbn [In]. split; [tauto|]. intros [(n & [] & _) _].
-  - destruct n as [nm [j|] st|nm dl kids].
+  - destruct n as [nm j st|nm dl kids].
     + destruct (Z.eqb_spec (len_of j t) 0) as [E0|E0].
       * rewrite IH. split.
         -- intros [(n0 & Hn0 & Hr) Hl]. split; [|exact Hl]. exists n0. split; [right; exact Hn0|exact Hr].
@@ -399,15 +399,12 @@ Proof.
            cbn [is_ref] in Hr. apply Nat.eqb_eq in Hr. subst j. contradiction.
       * cbn [In]. rewrite IH. split.
         -- intros [->|[(n0 & Hn0 & Hr) Hl]].
-           ++ split; [|exact E0]. exists (LFile nm (Some i) st). split; [left; reflexivity|].
+           ++ split; [|exact E0]. exists (LFile nm i st). split; [left; reflexivity|].
               cbn [is_ref]. apply Nat.eqb_refl.
            ++ split; [|exact Hl]. exists n0. split; [right; exact Hn0|exact Hr].
         -- intros [(n0 & [<-|Hn0] & Hr) Hl].
            ++ left. cbn [is_ref] in Hr. apply Nat.eqb_eq in Hr. exact Hr.
            ++ right. split; [exists n0; tauto|exact Hl].
-    + rewrite IH. split.
-      * intros [(n0 & Hn0 & Hr) Hl]. split; [|exact Hl]. exists n0. split; [right; exact Hn0|exact Hr].
-      * intros [(n0 & [<-|Hn0] & Hr) Hl]; [discriminate|]. split; [exists n0; tauto|exact Hl].
     + rewrite IH. split.
       * intros [(n0 & Hn0 & Hr) Hl]. split; [|exact Hl]. exists n0. split; [right; exact Hn0|exact Hr].
       * intros [(n0 & [<-|Hn0] & Hr) Hl]; [discriminate|]. split; [exists n0; tauto|exact Hl].
